@@ -185,7 +185,7 @@ class C05(Prop):
         for k in range(n + n // 2):
             schema, values, versions, payload, body = gen_regdata(rng, bit_runs=k >= n)
             cases.append({"kind": "regdata", "schema": schema, "values": values, "versions": versions, "payload": list(payload),
-                          "body": list(body)})
+                          "body": list(body), "early": rng.choice([None, None, "repr", "data"])})
         for _ in range(n // 2):
             l = [[rng.randrange(65536), rng.randrange(17)] for _ in range(rng.choice([0, 1, 5, 40]))]
             cases.append({"kind": "schema", "val": l})
@@ -198,7 +198,7 @@ class C05(Prop):
             nth = rng.choice([1, 2, 3])
             per = rng.randrange(0, len(t["thermostat_params"]) + 1)
             size_of = lambda i: t["thermostat_params"][i]["size"]
-            cases.append({"kind": "thermostat_params", "thermostats": nth,
+            cases.append({"kind": "thermostat_params", "thermostats": nth, "early": rng.choice([None, None, "repr", "data"]),
                           "enc": [rng.randrange(256), per, self._slots(rng, 1)[0], [self._slots(rng, per, size_of) for _ in range(nth)]]})
             ss = [[rng.randrange(len(t["schedules"])), rng.choice([0, 1]), self._slots(rng, 1)[0],
                    [[int(rng.random() < 0.5) for _ in range(48)] for _ in range(7)]] for _ in range(rng.randrange(0, 4))]
@@ -356,6 +356,13 @@ class C05(Prop):
                     dev.data["thermostats_available"] = c["thermostats"]
                 if k == "thermostat_parameters":
                     dev.data["thermostats_available"] = 3 if c["id"].startswith("3_") else 0
+                if c.get("early"):
+                    # the frame is looked at BEFORE it is handed to its device -- what the reader's debug log line does with every
+                    # received frame (repr) when debug logging is on; what it decodes to for its device must not depend on that
+                    try:
+                        _ = repr(fr) if c["early"] == "repr" else fr.data
+                    except Exception:  # noqa: BLE001
+                        pass
                 fr.assign_to(dev)
             try:
                 data = fr.data
